@@ -26,6 +26,18 @@ class Custom2(Exception):
         super().__init__("%s/%s" % (a, b))
 
 
+class Quota(Exception):
+    """Keeps one of its fields in an attribute called `message`; its text is made of several fields."""
+
+    def __init__(self, message, limit=5):
+        super().__init__(message, limit)
+        self.message = message
+        self.limit = limit
+
+    def __str__(self):
+        return "%s [limit=%s]" % (self.message, self.limit)
+
+
 class Outer:
     class Nested(Exception):
         pass
@@ -76,6 +88,7 @@ EXCS = {
     "exc-builtin": lambda: (_ for _ in ()).throw(ValueError("bad value")),
     "exc-custom1": lambda: (_ for _ in ()).throw(Custom1("custom one")),
     "exc-custom2": lambda: (_ for _ in ()).throw(Custom2("x", "y")),
+    "exc-message-attr": lambda: (_ for _ in ()).throw(Quota("over quota")),
     "exc-nested": lambda: (_ for _ in ()).throw(Outer.Nested("nested one")),
     "exc-local": _raise_local,
     "exc-keyerror": lambda: (_ for _ in ()).throw(KeyError("k")),
